@@ -26,7 +26,7 @@ go test -vet=off -count=1 ./... > $OUT/suite.log 2>&1; T=$?
 git checkout -q -- testdata 2>/dev/null; rm -f gengo.sum
 ( $DEMOCMD ) > $OUT/demo_with.log 2>&1; W1=$?
 log "applies=$AP build=$B suite=$T demo_without_exit=$W0 demo_with_exit=$W1"
-cd /verif
+cd ${VROOT:-/verif}
 CHK=$(VERIF_REPO=$V ./check $PROP 2>&1 | grep -v KNOWN-FINDING | tail -6)
 echo "$CHK" > $OUT/check_quick.log
 DET=$(echo "$CHK" | grep -c '^VIOLATION')
